@@ -43,6 +43,7 @@ func init() {
 			{Name: "literalkey", Run: runLiteralKey},
 			{Name: "argkinds", Run: runArgKinds},
 			{Name: "recvkinds", Run: runRecvKinds},
+			{Name: "gokinds", Run: runGoKinds},
 		},
 		Assumptions: []string{
 			"ref/num is a faithful transcription of ES5.1 9.3.1, 9.8.1, 15.1.2.2-3, 15.7.4.2/5/6/7 and 7.8.3 in exact arithmetic (math/big, exact decimal expansions); it is cross-checked against strconv and big.Rat by its unit tests and, at run time, by the round-trip law and a strconv shortest-digits comparison (a disagreement is a harness error, never a violation)",
